@@ -12,12 +12,15 @@ Proof. unfold dhas. destruct (dget k d); [discriminate|reflexivity]. Qed.
 
 Ltac k5cases Hc := cbv in Hc; destruct Hc as [<-|[<-|[<-|[<-|[<-|[]]]]]].
 
-Lemma simplify_const_nok d : dget REF d = None ->
-  dget (kw "const") (simplify_const d) = None /\ dget REF (simplify_const d) = None.
+Lemma simplify_const_nok d dc : dget REF d = None -> simplify_const d = Ok dc ->
+  dget (kw "const") dc = None /\ dget REF dc = None.
 Proof.
-  intros NR. unfold simplify_const. destruct (dget (kw "const") d) eqn:E; [|auto].
-  destruct (dget (kw "enum") (ddel (kw "const") d)) as [[| | | |l|]|]; split;
-    (rewrite dget_dset_other; [try apply dget_ddel_same; try (apply dget_ddel_other; exact NR)|intros X; cbv in X; discriminate X]).
+  intros NR H. unfold simplify_const in H. destruct (dget (kw "const") d) eqn:E; [|inversion H; subst; auto].
+  destruct (dget (kw "enum") (ddel (kw "const") d)) as [[| | | |l|]|]; try discriminate.
+  - destruct (hashable_all l && is_scalar j); [|discriminate]. inversion H; subst. split;
+      (rewrite dget_dset_other; [try apply dget_ddel_same; try (apply dget_ddel_other; exact NR)|intros X; cbv in X; discriminate X]).
+  - inversion H; subst. split;
+      (rewrite dget_dset_other; [try apply dget_ddel_same; try (apply dget_ddel_other; exact NR)|intros X; cbv in X; discriminate X]).
 Qed.
 
 Lemma simplify_ite_nok5 SV d : dget (kw "const") d = None -> dget REF d = None -> nok5 (simplify_ite SV d).
@@ -104,11 +107,13 @@ Proof. intros N. apply RF_same. intros c Hc. apply dget_dset_other. intros ->. c
 
 Ltac notwatch := let X := fresh in intros X; cbv in X; repeat (destruct X as [X|X]; [discriminate X|]); exact X.
 
-Lemma RF_simplify_const d : RF (JObj d) -> RF (JObj (simplify_const d)).
+Lemma RF_simplify_const d dc : RF (JObj d) -> simplify_const d = Ok dc -> RF (JObj dc).
 Proof.
-  intros H. unfold simplify_const. destruct (dget (kw "const") d); auto.
-  destruct (dget (kw "enum") (ddel (kw "const") d)) as [[| | | |l|]|];
-    (apply RF_dset_unwatched; [notwatch|apply RF_ddel; exact H]).
+  intros H E. unfold simplify_const in E. destruct (dget (kw "const") d); [|inversion E; subst; auto].
+  destruct (dget (kw "enum") (ddel (kw "const") d)) as [[| | | |l|]|]; try discriminate.
+  - destruct (hashable_all l && is_scalar j); [|discriminate]. inversion E; subst.
+    apply RF_dset_unwatched; [notwatch|apply RF_ddel; exact H].
+  - inversion E; subst. apply RF_dset_unwatched; [notwatch|apply RF_ddel; exact H].
 Qed.
 
 Lemma RF_nil : RF (JObj []).
@@ -217,11 +222,12 @@ Proof.
   - inversion H; subst. apply dnf_intro. intros a [<-|[]]. eexists. split; [reflexivity|]. apply clean_nil.
   - inversion H; subst. apply dnf_intro. intros a [<-|[]]. eexists. split; [reflexivity|]. apply cleanb_clean. reflexivity.
   - set (d1 := filter (fun '(k, _) => negb (smem k (discard_fields cfg))) d0) in *.
-    set (d2 := simplify_ite SV (simplify_const d1)) in *.
     assert (R1 : RF (JObj d1)) by (apply (RF_filter (fun k => negb (smem k (discard_fields cfg)))); exact HRF).
-    assert (R2 : RF (JObj d2)) by (apply RF_simplify_ite; apply RF_simplify_const; exact R1).
+    destruct (simplify_const d1) as [dc| | |] eqn:EC; cbn [bind] in H; try discriminate.
+    set (d2 := simplify_ite SV dc) in *.
+    assert (R2 : RF (JObj d2)) by (apply RF_simplify_ite; eapply RF_simplify_const; eauto).
     assert (N2 : nok5 d2).
-    { destruct (simplify_const_nok d1 (RF_top d1 R1)) as [A B]. apply simplify_ite_nok5; auto. }
+    { destruct (simplify_const_nok d1 dc (RF_top d1 R1) EC) as [A B]. apply simplify_ite_nok5; auto. }
     destruct (simplify_type d2) as [d3| | |] eqn:E3; cbn [bind] in H; try discriminate.
     pose proof (simplify_type_nok5 _ _ N2 E3) as N3. pose proof (RF_simplify_type _ _ R2 E3) as R3.
     destruct (simplify_depreq d3) as [d| | |] eqn:E4; cbn [bind] in H; try discriminate.
